@@ -647,7 +647,11 @@ func Setup(x *h.Ctx, what string, fn func()) {
 // h.PanicSignature does) and, when the faulting frame itself lies in a dependency, also that frame — so that two
 // different defects of a library reached through the same nuts-node function get different signatures.
 // It returns false when fn panicked. Harness errors (x.Fatalf) and rapid's control-flow panics pass through.
-func Guard(x *h.Ctx, fn func()) (ok bool) {
+func Guard(x *h.Ctx, fn func()) (ok bool) { return GuardAs(x, "", fn) }
+
+// GuardAs is Guard with a suffix appended to the panic signature (e.g. ":route=reprocess" when one production function is
+// reached through several entry points that are judged separately).
+func GuardAs(x *h.Ctx, suffix string, fn func()) (ok bool) {
 	defer func() {
 		r := recover()
 		if r == nil {
@@ -670,9 +674,15 @@ func Guard(x *h.Ctx, fn func()) (ok bool) {
 			ok = false
 			return
 		}
+		if strings.Contains(sig, ".c19") {
+			// the top "nuts-node" frame is a method of a harness stub (a c19* type embedding a nil interface): the fixture
+			// lacks a collaborator method the code under test needs. Harness problem, not a violation.
+			x.Fatalf("harness stub incomplete: %s\npanic: %v\n%s", sig, r, st)
+		}
 		if lib := faultingLibraryFrame(st); lib != "" {
 			sig += "@" + lib
 		}
+		sig += suffix
 		if len(st) > 3500 {
 			st = st[:3500] + "\n…"
 		}
